@@ -221,7 +221,9 @@ def provOf : Val → Option Prov
 def Prov.get : Prov → String → Val
   | .empty, _ => .nil
   | .map kvs, k => (lookupD kvs k).getD .nil
-  | .flat kvs, k => (lookupD kvs k).getD (.str "")
+  | .flat kvs, k =>
+    -- urlDataProvider.Get: a missing key reads as "", a missing list key (`k[]`) as nil
+    (lookupD kvs k).getD (if k.length > 2 && k.endsWith "[]" then .nil else .str "")
 
 /-- `GetKeyFromField`: source tag, else `zog` tag, else the schema key -/
 def keyFor (tag : Option String) (fm : FieldMeta) (schemaKey : String) : String :=
